@@ -4,6 +4,7 @@ mod decoder;
 mod diag;
 mod gap;
 mod phyrx;
+mod prm;
 mod util;
 
 use std::io::{BufRead, Write};
@@ -27,6 +28,7 @@ fn engine(name: &str) -> Option<(fn(&mut Vec<String>, u64, bool), Box<dyn Execut
         "decoder" => Some((decoder::gen, Box::new(Stateless(decoder::exec)))),
         "diag" => Some((diag::gen, Box::new(diag::Exec::default()))),
         "gap" => Some((gap::gen, Box::new(Stateless(gap::exec)))),
+        "prm" => Some((prm::gen, Box::new(prm::PrmExec::new()))),
         "phyrx" => Some((phyrx::gen, Box::new(phyrx::Exec::new()))),
         _ => None,
     }
